@@ -323,14 +323,34 @@ fn gen_statements(fields: &Fields, encoding: Encoding) -> syn::Result<proc_macro
             let tag  = decode_tag(&field.attrs);
             let name = &field.ident;
 
-            quote! {{
-                #tag
-                match #decode_fn(__d777, __ctx777) {
-                    Ok(__v777) => #name = #value,
-                    #unknown_var_err
-                    Err(e) => return Err(e)
-                }
-            }}
+            if field.attrs.tag().is_some() {
+                // A tagged field which may be absent also accepts an untagged
+                // null. This is what software unaware of the field puts into
+                // its array position when filling index gaps.
+                let ty  = &field.typ;
+                let nil = nil(field);
+                quote! {{
+                    let __nil777: core::option::Option<#ty> = #nil;
+                    if __nil777.is_some() && minicbor::data::Type::Null == __d777.datatype()? {
+                        __d777.skip()?
+                    } else {
+                        #tag
+                        match #decode_fn(__d777, __ctx777) {
+                            Ok(__v777) => #name = #value,
+                            #unknown_var_err
+                            Err(e) => return Err(e)
+                        }
+                    }
+                }}
+            } else {
+                quote! {{
+                    match #decode_fn(__d777, __ctx777) {
+                        Ok(__v777) => #name = #value,
+                        #unknown_var_err
+                        Err(e) => return Err(e)
+                    }
+                }}
+            }
     })
     .collect::<Vec<_>>();
 
